@@ -5,6 +5,7 @@ from .constants import CALL, POS, RESULT, STATUS
 
 
 class Call(Expression):
+    is_call = True
     num_blocks = 0
 
     def __init__(self, func, args):
